@@ -44,7 +44,7 @@ claim("C07",
       "567 cells); SliceMode->IndexMode map; the three range_indices return None exactly on a failed lookup or "
       "start>end and otherwise (start, end) obtained with GreaterOrEqual / Less|LessOrEqual; every result-relevant "
       "guard of the sampled dimension depends on position, offset and interval. Guards are evaluated on one "
-      "representative per region (the extracted guards, never repository code). The conversions read ticks/labels through the accessors (linked values when linked). NOT decided: behaviour for reals "
+      "representative per region (the extracted guards, never repository code). The conversions read ticks/labels through the accessors (linked values when linked); range_indices answers "empty" only after a failed lookup or after comparing the two lookup results; descriptors keep nothing read from the file. NOT decided: behaviour for reals "
       "outside the region representatives beyond what the guards' structure implies, np.isclose tolerance effects, "
       "position_at/axis inverse pair.",
       "decision-table extraction by path-sensitive abstract interpretation; region-exhaustive comparison with a spec "
@@ -66,7 +66,7 @@ claim("C02",
       "persistent attributes read storage on every path (no cached values); the hdf5 layer's attribute contract "
       "(None deletes, else the value is stored under the given name) is checked on the layer's own decision table; "
       "File.close/__exit__ reach h5py close on all normal paths; container classes never store to self outside "
-      "__init__; the layer never modifies an attribute in place and never unlinks a container group as a whole; removing an optional link never removes the entity that carried it. NOT decided: equality of the complete observable state before/after reopen, value encodings.",
+      "__init__; the layer never modifies an attribute in place and never unlinks a container group as a whole; removing an optional link never removes the entity that carried it; no accessor (190 getters) creates a storage group; a created property holds the values it was given on every creating path. NOT decided: equality of the complete observable state before/after reopen, value encodings.",
       "path-sensitive abstract interpretation of every accessor (storage-key extraction, must-write / must-read on all "
       "paths)", "DESIGN.md#c02")
 claim("C12",
@@ -75,7 +75,7 @@ claim("C12",
       "depends on the call's arguments; every such (API, first write, refusal) triple is either triaged as infeasible "
       "/ rolled back with a reason (triage/c12.json) or is a recorded defect; the inventory of pre-write argument "
       "refusals (176 API x exception-class pairs) must not shrink; the rollback handler of create_multi_tag deletes "
-      "exactly what was created. Loops are unrolled twice for small members. create_data_array refuses a shape/data mismatch before creating anything. Findings are keyed by (API member, first write op:key, exception class). NOT decided: failures raised inside "
+      "exactly what was created. Loops are unrolled twice for small members. create_data_array refuses a shape/data mismatch, create_property a mixed value list, before creating anything. Findings are keyed by (API member, first write op:key, exception class). NOT decided: failures raised inside "
       "h5py/NumPy after a write (no raise statement in the source).",
       "interprocedural path-sensitive abstract interpretation (event order + taint of the refusing guard); frozen "
       "refusal inventory", "DESIGN.md#c12")
@@ -95,7 +95,7 @@ claim("C03",
       "API member comes from uuid4 or from an oid that passed is_uuid (the layer's copy re-ids with uuid4); every "
       "HDF5 group/file creation requests creation-order tracking+indexing and positional access iterates the "
       "creation-order index increasing; the id-or-name dispatchers are checked for a fall-back to the name when the "
-      "id search misses (known finding D10: they have none); containers answer every lookup from the file (nothing enumerated is remembered) and decide membership of an entity by its id. NOT decided: uniqueness of uuid4 values, agreement of "
+      "id search misses (known finding D10: they have none); containers answer every lookup from the file (nothing enumerated is remembered) and decide membership of an entity by its id; the name check accepts every legal name of a representative set (leading dots, id-like, long, non-ASCII) and refuses empty names and names with a slash; the id lookup returns only a child whose stored id was compared equal. NOT decided: uniqueness of uuid4 values, agreement of "
       "all lookup paths as sequences at run time.",
       "must-precede / value-provenance on all abstract paths (path-sensitive abstract interpretation); raw h5py "
       "event arguments; decision tables of the dispatchers", "DESIGN.md#c03")
